@@ -50,6 +50,9 @@ type Contract struct {
 	Inline      bool
 	Trusted     bool
 	MemWrites   bool
+	StopAt      string // call site after whose `before` items every path ends (prefix verification; the rest is covered by `flows`)
+	Flows       []Flow
+	OpaqueCalls bool // calls without model, contract or body to inline yield unconstrained results (tool set-up code)
 	Guards      []*Guard
 	Rely        []*Clause // assumed after every blocking point (other steps have run meanwhile); old() = just before blocking
 	Invariants  []*Clause // closures passed to Range: hold before and after every invocation
@@ -120,6 +123,11 @@ func (c *Contract) AllTags() []string {
 			m[t] = true
 		}
 	}
+	for _, f := range c.Flows {
+		for _, t := range f.Tags {
+			m[t] = true
+		}
+	}
 	for _, cls := range c.LoopInv {
 		for _, cl := range cls {
 			for _, t := range cl.Tags {
@@ -149,7 +157,15 @@ func (c *Contract) AllTags() []string {
 
 var keywords = map[string]bool{"func": true, "requires": true, "ensures": true, "assigns": true, "nopanic": true,
 	"inline": true, "trusted": true, "loop": true, "at": true, "spec": true, "pred": true, "ghost": true,
-	"lemma": true, "assumption": true, "rely": true, "memwrites": true, "tags": true, "let": true, "guarded": true, "invariant": true, "opaque": true, "deadreturn": true}
+	"lemma": true, "assumption": true, "rely": true, "opaquecalls": true, "stopat": true, "flows": true, "memwrites": true, "tags": true, "let": true, "guarded": true, "invariant": true, "opaque": true, "deadreturn": true}
+
+// Flow: `flows T.F <- x into f`: the (single) struct literal of type T built in
+// the function stores into field F the SSA value the local x denotes at the
+// stop site, and that struct is handed to the (single) call of f.
+type Flow struct {
+	Type, Field, Local, Into string
+	Tags                    []string
+}
 
 // Guard: fields of the receiver that may only be accessed while Mutex is held.
 type Guard struct {
@@ -308,6 +324,19 @@ func (cs *contractSet) parseFile(root, file string) error {
 			cur.Tags = append(cur.Tags, tags...)
 		case "trusted":
 			cur.Trusted = true
+		case "opaquecalls":
+			cur.OpaqueCalls = true
+		case "stopat":
+			cur.StopAt = strings.TrimSpace(rest)
+		case "flows":
+			// flows [tags] Type.Field <- local into callee
+			tags, r2 := parseTags(rest)
+			f := strings.Fields(r2)
+			if len(f) != 5 || f[1] != "<-" || f[3] != "into" || !strings.Contains(f[0], ".") {
+				return fmt.Errorf("%s:%d: flows needs `Type.Field <- local into callee`", file, c.line)
+			}
+			tf := strings.SplitN(f[0], ".", 2)
+			cur.Flows = append(cur.Flows, Flow{Type: tf[0], Field: tf[1], Local: f[2], Into: f[4], Tags: tags})
 		case "memwrites":
 			cur.MemWrites = true
 		case "deadreturn":
